@@ -391,10 +391,10 @@ def _tag_ok(c: Ctx, f: Func, e: ast.AST | None, depth: int = 0) -> bool:
     if isinstance(e, ast.BinOp) and isinstance(e.op, ast.Add) and isinstance(e.left, ast.Constant) and isinstance(e.left.value, str) \
             and isinstance(e.right, ast.Call) and isinstance(e.right.func, ast.Name) and e.right.func.id == "str" and len(e.right.args) == 1:
         t = c.tf.scope(f).type(e.right.args[0])
-        return t in ("int", "bool") or _all_int_defs(f, e.right.args[0])
+        return t in ("int", "bool") or _all_int_defs(f, e.right.args[0], c)
     if isinstance(e, ast.JoinedStr):
         return all(isinstance(v, ast.Constant) or (isinstance(v, ast.FormattedValue) and
-                   (c.tf.scope(f).type(v.value) == "int" or _all_int_defs(f, v.value))) for v in e.values)
+                   (c.tf.scope(f).type(v.value) == "int" or _all_int_defs(f, v.value, c))) for v in e.values)
     return False
 
 
@@ -451,13 +451,35 @@ def _heading_range(c: Ctx, f: Func, e: ast.AST, at: ast.AST) -> str:
     return ""
 
 
-def _all_int_defs(f: Func, e: ast.AST) -> bool:
+def _all_int_defs(f: Func, e: ast.AST, c: Ctx | None = None, depth: int = 0) -> bool:
     if not isinstance(e, ast.Name):
         return False
     vals = []
     for n in own_nodes(f.node):
         if isinstance(n, ast.Assign) and any(isinstance(t, ast.Name) and t.id == e.id for t in n.targets):
             vals.append(n.value)
+        elif isinstance(n, ast.Assign) and c is not None and depth < 2 and len(n.targets) == 1 and isinstance(n.targets[0], ast.Tuple) \
+                and any(isinstance(t, ast.Name) and t.id == e.id for t in n.targets[0].elts) and isinstance(n.value, ast.Call):
+            # level, pos, ch = helper(...): the component of every tuple the helper returns must be an int
+            k = next(i for i, t in enumerate(n.targets[0].elts) if isinstance(t, ast.Name) and t.id == e.id)
+            cs = c.cg.site_of.get(n.value)
+            if cs is None or len(cs.callees) != 1 or cs.kind not in ("direct", "method"):
+                return False
+            h = cs.callees[0]
+            rets = [x for x in own_nodes(h.node) if isinstance(x, ast.Return) and x.value is not None]
+            if not rets:
+                return False
+            for rt in rets:
+                if not (isinstance(rt.value, ast.Tuple) and len(rt.value.elts) == len(n.targets[0].elts)):
+                    return False
+                comp = rt.value.elts[k]
+                if c.tf.scope(h).type(comp) in ("int",):
+                    continue
+                if isinstance(comp, ast.Constant) and isinstance(comp.value, int) and not isinstance(comp.value, bool):
+                    continue
+                if not _all_int_defs(h, comp, c, depth + 1):
+                    return False
+            vals.append(ast.Constant(value=0))
         elif isinstance(n, ast.AugAssign) and isinstance(n.target, ast.Name) and n.target.id == e.id:
             vals.append(n.value)
     def int_expr(v: ast.AST) -> bool:
